@@ -14,6 +14,7 @@ package compressor
 //@   requires ghost("liberr") == 0
 //@   ensures[no_hidden_error] ghost("liberr") == 1 ==> err != nil
 //@   ensures[lib_output] err == nil ==> ghost("libout") == sliceid(out)
+//@   ensures[output_not_shared] err == nil && len(out) > 0 ==> fresh(out)
 //@   modifies *
 
 //@ func (*compressor).decompressLZ4(c, compressed) (out, err)
@@ -22,6 +23,7 @@ package compressor
 //@   requires ghost("liberr") == 0
 //@   ensures[no_hidden_error] ghost("liberr") == 1 ==> err != nil
 //@   ensures[lib_output] err == nil ==> ghost("libout") == sliceid(out)
+//@   ensures[output_not_shared] err == nil && len(out) > 0 ==> fresh(out)
 //@   modifies *
 
 //@ func (*compressor).decompressSnappy(c, compressed) (out, err)
@@ -30,6 +32,7 @@ package compressor
 //@   requires ghost("liberr") == 0
 //@   ensures[no_hidden_error] ghost("liberr") == 1 ==> err != nil
 //@   ensures[lib_output] err == nil ==> ghost("libout") == sliceid(out)
+//@   ensures[output_not_shared] err == nil && len(out) > 0 ==> fresh(out)
 //@   modifies *
 
 //@ func (*compressor).decompressZstd(c, compressed) (out, err)
@@ -38,6 +41,7 @@ package compressor
 //@   requires ghost("liberr") == 0
 //@   ensures[no_hidden_error] ghost("liberr") == 1 ==> err != nil
 //@   ensures[lib_output] err == nil ==> ghost("libout") == sliceid(out)
+//@   ensures[output_not_shared] err == nil && len(out) > 0 ==> fresh(out)
 //@   modifies *
 
 //@ func (*compressor).compressGzip(c, data) (out, err)
@@ -47,6 +51,7 @@ package compressor
 //@   ensures[no_hidden_error] ghost("liberr") == 1 ==> err != nil
 //@   ensures[closed_before_read] err == nil ==> ghost("snap") == 1
 //@   ensures[lib_output] err == nil ==> ghost("libout") == sliceid(out)
+//@   ensures[output_not_shared] err == nil && len(out) > 0 ==> fresh(out)
 //@   modifies *
 
 //@ func (*compressor).compressLZ4(c, data) (out, err)
@@ -56,6 +61,7 @@ package compressor
 //@   ensures[no_hidden_error] ghost("liberr") == 1 ==> err != nil
 //@   ensures[closed_before_read] err == nil ==> ghost("snap") == 1
 //@   ensures[lib_output] err == nil ==> ghost("libout") == sliceid(out)
+//@   ensures[output_not_shared] err == nil && len(out) > 0 ==> fresh(out)
 //@   modifies *
 
 //@ func (*compressor).compressSnappy(c, data) (out, err)
@@ -64,6 +70,7 @@ package compressor
 //@   requires ghost("liberr") == 0
 //@   ensures[no_hidden_error] ghost("liberr") == 1 ==> err != nil
 //@   ensures[lib_output] err == nil ==> ghost("libout") == sliceid(out)
+//@   ensures[output_not_shared] err == nil && len(out) > 0 ==> fresh(out)
 //@   modifies *
 
 //@ func (*compressor).compressZstd(c, data) (out, err)
@@ -72,6 +79,7 @@ package compressor
 //@   requires ghost("liberr") == 0
 //@   ensures[no_hidden_error] ghost("liberr") == 1 ==> err != nil
 //@   ensures[lib_output] err == nil ==> ghost("libout") == sliceid(out)
+//@   ensures[output_not_shared] err == nil && len(out) > 0 ==> fresh(out)
 //@   modifies *
 
 // Dispatch: every supported type reaches its own codec pair and nothing else.
@@ -81,6 +89,7 @@ package compressor
 //@   ensures[no_hidden_error] ghost("liberr") == 1 ==> err != nil
 //@   ensures[unknown_type] (old(c.compressorType) < 1 || old(c.compressorType) > 4) ==> err != nil
 //@   ensures[lib_output] err == nil ==> ghost("libout") == sliceid(out)
+//@   ensures[output_not_shared] err == nil && len(out) > 0 ==> fresh(out)
 //@   ensures[algo] err == nil ==> ghost("algo") == old(c.compressorType)
 //@   modifies *
 
@@ -90,5 +99,6 @@ package compressor
 //@   ensures[no_hidden_error] ghost("liberr") == 1 ==> err != nil
 //@   ensures[unknown_type] (old(c.compressorType) < 1 || old(c.compressorType) > 4) ==> err != nil
 //@   ensures[lib_output] err == nil ==> ghost("libout") == sliceid(out)
+//@   ensures[output_not_shared] err == nil && len(out) > 0 ==> fresh(out)
 //@   ensures[algo] err == nil ==> ghost("algo") == old(c.compressorType)
 //@   modifies *
